@@ -43,6 +43,29 @@ def harness(cfg, nprior, nbetween, warm):
                 a, b = B.sym_query(E, f'p{k}', lo, hi, Fraction(1 + k, 8) + lo.v, Fraction(5 + k, 8) + lo.v, grid, ml)
                 bm(a, b, **kw)
             s, t = B.sym_query(E, 'q', lo, hi, lo.v + Fraction(1, 4), lo.v + Fraction(3, 4), grid, ml)
+            if c.get('point'):
+                # wrappers with an initial value (BrownianTree / BrownianPath): single-argument point queries W(t) = w0 + W(t0, t)
+                # interleaved with interval queries over the same nodes; every answer must repeat bit for bit
+                seq = [lambda: bm(t), lambda: bm(lo, t), lambda: bm(hi), lambda: bm(s, t)]
+                first = [snapshot(f()) for f in seq]
+                for k in range(nbetween):
+                    a, b = B.sym_query(E, f'm{k}', lo, hi, Fraction(2 + k, 16) + lo.v, Fraction(9 + k, 16) + lo.v, grid, ml)
+                    bm(b); bm(a, b)
+                second = [snapshot(f()) for f in seq]
+                for nm, (p1s, r1s), (p2s, _) in zip(['point', 'W-from-t0', 'point-t1', 'W'], first, second):
+                    p1, p2, live1 = p1s[0], p2s[0], r1s[0]
+                    if not torch.equal(p1[1], p2[1]):
+                        E.fail(f'repeat-{nm}', 'concrete', f'bits differ in the concrete run: {p1[1].reshape(-1)[:3].tolist()} vs {p2[1].reshape(-1)[:3].tolist()}')
+                    if p1[0] is not None and p2[0] is not None:
+                        for x, y in zip(p1[0], p2[0]):
+                            if x is not y:
+                                if B.prove_eq(E, f'repeat-{nm}', x, y):
+                                    E.fail(f'repeat-{nm}-structure', 'structure', 'answers are equal as reals but computed by different float operations')
+                                break
+                    if isinstance(live1, SymT) and p1[0] is not None:
+                        if not torch.equal(live1.elem, p1[1]) or any(a_ is not b_ for a_, b_ in zip(live1.sym.reshape(-1), p1[0])):
+                            E.fail(f'returned-{nm}-mutated', 'concrete', 'a tensor returned earlier was modified in place by a later call')
+                return
             snap1, r1 = snapshot(bm(s, t, **kw))
             for k in range(nbetween):
                 if warm:
@@ -106,6 +129,9 @@ def tasks_for(tier):
         (dict(levy='davie', size=(1, 2), cache_size=None), 1, 1, False, mp, to),
         (dict(levy='space-time', size=(1,), cache_size=1, tol=0.1, halfway=True, t1=Fraction(1, 2)), 0, 1, False, mp, to),
         (dict(levy='none', size=(1,), cache_size=3, dt=0.25), 0, 1, False, mp, to),
+        # wrappers with an initial value w0 != 0 and single-argument point queries (seeded change C05d)
+        (dict(wrapper='tree', levy='none', size=(1,), tol=0.1, t1=Fraction(1, 2), w0=1.5, point=True), 0, 1, False, mp, to),
+        (dict(wrapper='path', levy='none', size=(2,), w0=-0.75, point=True), 0, 1, False, mp, to),
     ]
     if not q:
         T += [
@@ -178,6 +204,8 @@ def replay(data):
             return inp[name + 'a'], inp[name + 'b']
         return inp[name + 'ka'] / 10 ** grid, inp[name + 'kb'] / 10 ** grid
     bad = []
+    if cfg.get('point'):
+        return replay_point(cfg, r, q)
     try:
         dt = cfg['dt'] if cfg['dt'] != 'sym' else inp.get('DT')
         bm = torchsde.BrownianInterval(t0=float(Fraction(cfg['t0'])), t1=float(Fraction(cfg['t1'])), size=size, dtype=torch.float64,
@@ -210,4 +238,38 @@ def replay(data):
     except Exception as e:
         bad.append(f'crash {type(e).__name__}: {e}')
     print('replay C05:', bad or 'bit-identical')
+    return bool(bad)
+
+
+def replay_point(cfg, r, q):
+    """BrownianTree / BrownianPath with w0 != 0 on floats: point and interval queries repeated around other queries"""
+    import torchsde
+    size = tuple(cfg['size'])
+    t0, t1 = float(Fraction(cfg['t0'])), float(Fraction(cfg['t1']))
+    w0 = torch.full(size, float(cfg.get('w0', 0)), dtype=torch.float64)
+    if cfg['wrapper'] == 'tree':
+        bm = torchsde.BrownianTree(t0=t0, w0=w0, t1=t1, entropy=cfg['entropy'], tol=cfg['tol'] or 0.1)
+    else:
+        bm = torchsde.BrownianPath(t0=t0, w0=w0)
+    s, t = q('q')
+    seq = [('point', lambda: bm(t)), ('W-from-t0', lambda: bm(t0, t)), ('point-t1', lambda: bm(t1)), ('W', lambda: bm(s, t))]
+    bad = []
+    try:
+        first = [(f(),) for _, f in seq]
+        keep = [x[0].clone() for x in first]
+        for k in range(r['nbetween']):
+            a, b = q(f'm{k}')
+            bm(b); bm(a, b)
+        # sweep a few more grid points so that the replay does not depend on the solver's choice of the in-between query
+        for b in [t0 + (t1 - t0) * i / 8 for i in range(1, 9)]:
+            bm(b)
+        second = [f() for _, f in seq]
+        for (nm, _), a, b, (live,) in zip(seq, keep, second, first):
+            if not torch.equal(a, b):
+                bad.append(f'{nm} differs on repeat: max abs diff {float((a - b).abs().max())}')
+            if not torch.equal(a, live):
+                bad.append(f'{nm} returned earlier was mutated')
+    except Exception as e:
+        bad.append(f'crash {type(e).__name__}: {e}')
+    print('replay C05 (point queries):', bad or 'bit-identical')
     return bool(bad)
